@@ -1,6 +1,6 @@
 SPECIFICATION Spec
 CONSTANTS
-  MaxLcs = 5
+  MaxLcs = 4
   Starts = {0, 1, 2, 3}
 INVARIANTS TotalOrder ExistsUnique Obligations
 CHECK_DEADLOCK FALSE
